@@ -28,6 +28,18 @@ Proof.
   inversion He; subst. eapply IH; eauto.
 Qed.
 
+Lemma const_pairs_noerr fuel pairs kvs : const_pairs pairs = Some kvs ->
+  forall s k, map_eval_pairs (eval c fuel esc) s pairs = Err k -> False.
+Proof.
+  revert kvs. induction pairs as [|[k0 x] r IH]; intros kvs H s k He; cbn [map_eval_pairs] in He; [discriminate|].
+  fold (map_eval_pairs (eval c fuel esc)) in He.
+  cbn [const_pairs] in H. destruct k0; try discriminate. destruct x; try discriminate.
+  destruct (const_pairs r) as [vr|] eqn:E; try discriminate.
+  destruct fuel as [|fuel']; [discriminate|]. rewrite !eval_const in He. cbn [bind] in He. rewrite eval_const in He. cbn [bind] in He.
+  destruct (map_eval_pairs (eval c (S fuel') esc) s r) as [[ws s1]| | |] eqn:Er; try discriminate.
+  inversion He; subst. eapply IH; eauto.
+Qed.
+
 Lemma fold_chain_noerr fuel rest :
   (forall p, In p rest -> fold_noerr fuel (snd p)) ->
   forall left v0, is_undef left = false -> fold_chain as_const left rest = Some v0 ->
@@ -58,6 +70,9 @@ Proof.
   - destruct (const_values items) as [vs|] eqn:E; cbn [omap] in H; try discriminate.
     cbn [eval] in He. destruct (map_eval (eval c fuel esc) s items) as [[ws s1]| | |] eqn:Em; try discriminate.
     inversion He; subst. eapply const_values_noerr; eauto.
+  - destruct (const_pairs pairs) as [kvs|] eqn:E; cbn [omap] in H; try discriminate.
+    cbn [eval] in He. destruct (map_eval_pairs (eval c fuel esc) s pairs) as [[ws s1]| | |] eqn:Em; try discriminate.
+    inversion He; subst. eapply const_pairs_noerr; eauto.
   - destruct (as_const e) as [x|] eqn:E; cbn [obind] in H; try discriminate.
     cbn [eval] in He. destruct (eval c fuel esc s e) as [[x' s1]| | |] eqn:Ee; cbn [bind] in He; try discriminate.
     + destruct (INV e x E _ _ _ Ee) as [-> ->]. destruct x; cbn in H; try discriminate.
@@ -209,6 +224,33 @@ Proof.
     eapply errs_trans. { eapply (SE x Hx _ _ _ Ex Hi). eapply code_at_app_l; eauto. }
     eapply (IHr Hr _ _ Er I1). eapply code_at_app_r; eauto.
   - inversion He; subst. eapply (IH esc x Hx _ _ Ex Hi). eapply code_at_app_l; eauto.
+Qed.
+
+(* the pairs of a map literal: the first failing key or value fails the VM *)
+Lemma pairs_err fuel esc pairs : eval_inv c C fuel ->
+  (forall e, l2_expr e = true -> sim_expr c C fuel esc e) -> err_expr fuel ->
+  forallb (fun p => l2_expr (fst p) && l2_expr (snd p)) pairs = true ->
+  forall s k, map_eval_pairs (eval c fuel esc) s pairs = Err k -> Inv s ->
+  forall base stk escs caps its calls, code_at C base (pairs_code compile_expr pairs base) ->
+  errs (mkVm base stk s esc escs caps its calls) k.
+Proof.
+  intros EV SE IH. induction pairs as [|[k0 x] r IHr]; intros Hw s k He Hi base stk escs caps its calls Hc; [discriminate|].
+  cbn [forallb fst snd] in Hw. apply andb_prop in Hw as [Hkx Hr]. apply andb_prop in Hkx as [Hk Hx].
+  cbn [map_eval_pairs] in He. fold (map_eval_pairs (eval c fuel esc)) in He.
+  cbn [pairs_code] in Hc. fold (pairs_code compile_expr) in Hc.
+  destruct (eval c fuel esc s k0) as [[kv s1]| | |] eqn:Ek; cbn [bind] in He; try discriminate.
+  2: { inversion He; subst. eapply (IH esc k0 Hk _ _ Ek Hi). eapply code_at_app_l; eauto. }
+  destruct (EV esc k0 Hk _ _ _ Hi Ek) as [_ I1].
+  eapply errs_trans. { eapply (SE k0 Hk _ _ _ Ek Hi). eapply code_at_app_l; eauto. }
+  apply code_at_app_r in Hc.
+  destruct (eval c fuel esc s1 x) as [[xv s2]| | |] eqn:Ex; cbn [bind] in He; try discriminate.
+  2: { inversion He; subst. eapply (IH esc x Hx _ _ Ex I1). eapply code_at_app_l; eauto. }
+  destruct (EV esc x Hx _ _ _ I1 Ex) as [_ I2].
+  eapply errs_trans. { eapply (SE x Hx _ _ _ Ex I1). eapply code_at_app_l; eauto. }
+  apply code_at_app_r in Hc.
+  destruct (map_eval_pairs (eval c fuel esc) s2 r) as [[vr s3]| | |] eqn:Er; cbn [bind] in He; try discriminate.
+  inversion He; subst. eapply (IHr Hr _ _ Er I2).
+  eapply code_at_pc; [exact Hc|]. lia.
 Qed.
 
 Lemma chain_err fuel esc rest : eval_inv c C fuel ->
@@ -392,6 +434,9 @@ Proof.
   - (* EList *)
     destruct (map_eval (eval c fuel esc) s items) as [[vs s1]| | |] eqn:Em; cbn [bind] in He; try discriminate.
     inversion He; subst. eapply (seq_err fuel esc items EV (SE esc) IH Hw _ _ Em Hi). eapply code_at_app_l; eauto.
+  - (* EMap *)
+    destruct (map_eval_pairs (eval c fuel esc) s pairs) as [[kvs s1]| | |] eqn:Em; cbn [bind] in He; try discriminate.
+    inversion He; subst. eapply (pairs_err fuel esc pairs EV (SE esc) IH Hw _ _ Em Hi). eapply code_at_app_l; eauto.
   - (* ENeg *)
     destruct (eval c fuel esc s e) as [[x s1]| | |] eqn:Ea; cbn [bind] in He; try discriminate.
     + eapply errs_trans; [exact (SUB e _ _ _ _ _ _ Hw Ea Hi Hc)|]. apply code_at_app_r in Hc.
@@ -487,14 +532,14 @@ Proof.
       [|inversion He; subst; eapply (IH esc e2 Hw2 _ _ Eb I1); eapply code_at_app_l; eauto].
     eapply errs_trans; [exact (SUB e2 _ _ _ _ _ _ Hw2 Eb I1 Hc)|]. apply code_at_app_r in Hc.
     apply errs_here. at_instr Hc. unfold get_item.
-    destruct (match x, y with VList l, VInt z => idx_list l z | _, _ => None end); [discriminate|].
+    destruct (get_item_opt x y); [discriminate|].
     destruct (u_handle_undefined (c_mode c) (is_undef x)); cbn [bind] in He |- *; try discriminate. inversion He; reflexivity.
   - (* EAttr *)
     destruct (eval c fuel esc s e) as [[x s1]| | |] eqn:Ea; cbn [bind] in He; try discriminate;
       [|inversion He; subst; eapply (IH esc e Hw _ _ Ea Hi); eapply code_at_app_l; eauto].
     eapply errs_trans; [exact (SUB e _ _ _ _ _ _ Hw Ea Hi Hc)|]. apply code_at_app_r in Hc.
     apply errs_here. at_instr Hc. unfold get_attr.
-    destruct (match x with VLoop i n => loop_attr i n a | _ => None end); [discriminate|].
+    destruct (get_attr_opt x a); [discriminate|].
     destruct (u_handle_undefined (c_mode c) (is_undef x)); cbn [bind] in He |- *; try discriminate. inversion He; reflexivity.
   - (* EFilter *)
     apply andb_prop in Hw as [Hw1 Hw2]. 
@@ -541,11 +586,11 @@ Proof.
     destruct (call_prefix fuel esc f args kwargs EV (SE esc) Hw1 Hw2 Hnd _ _ _ _ _ Em Ek Hi base stk escs caps its calls Hc)
       as (pcall & argc & args0 & Hn & Hpop & Hsp & Hend & S12).
     eapply errs_trans; [exact S12|].
-    destruct fv as [[| | | | | | |mc cl| |g]|];
+    destruct fv as [[| | | | | | | |mc cl| |g]|];
       try (apply errs_here; rewrite (step_at _ _ _ _ _ _ _ _ _ Hn); cbn [exec_instr v_stk v_st]; rewrite Hpop, Hsp, El; inversion He; reflexivity).
     2: { apply errs_here. rewrite (step_at _ _ _ _ _ _ _ _ _ Hn). cbn [exec_instr v_stk v_st]. rewrite Hpop, Hsp, El.
          destruct (g =? N_range)%Z; [|inversion He; reflexivity].
-         destruct vs as [|[| | | |n| | | | |] [|? ?]]; try (inversion He; reflexivity).
+         destruct vs as [|[| | | |n| | | | | |] [|? ?]]; try (inversion He; reflexivity).
          destruct kvs; [discriminate|inversion He; reflexivity]. }
     destruct (IHcall esc s3 mc cl vs kvs k He I3 Vf V1 V2 pcall (rev args0 ++ stk) s2 stk escs caps its calls) as [Hvm|(σ1 & Hvm & Herr)].
     + apply errs_here. rewrite (step_at _ _ _ _ _ _ _ _ _ Hn). cbn [exec_instr v_stk v_st]. rewrite Hpop, Hsp, El. exact Hvm.
